@@ -1,7 +1,7 @@
 (* C02 — the HOG hierarchy is a forest aligned level-by-level with the species tree. *)
 From Coq Require Import List Arith Bool String Permutation.
-From PyHam Require Import Tax Ortho Loader Mapper Preds Hist Spell.
-From PyHam.proofs Require Import LoaderFacts ExplicitFacts SpellFacts.
+From PyHam Require Import Tax Ortho Loader Mapper Preds Hist Spell Whole.
+From PyHam.proofs Require Import LoaderFacts ExplicitFacts SpellFacts OidFacts WholeFacts.
 Import ListNotations.
 
 (* The alignment theorem, for every consistent input: every species tree, every well-formed history
@@ -25,6 +25,20 @@ Theorem c02_aligned : forall t d hs,
     Forall2 (fun h top => matches h (snd top) /\ htax (snd top) = xtax h /\ wf_node t (snd top) = true) hs (l_tops l).
 Proof. exact spelt_load. Qed.
 Print Assumptions c02_aligned.
+
+(* the whole forest: for every consistent input (WholeFacts.consistent: species blocks name leaves, genes
+   declared once and referenced at most once, groups are permitted spellings of well-formed histories) the
+   forest handed to the analysis layers - top-level HOGs and singletons - satisfies wfbc: every root aligned
+   (wf_node), top-level HOGs are HOGs, singletons are genes at leaves, all HOG objects pairwise different
+   (each is created once and registered once: OidFacts), every gene id occurs once (a gene has one parent and
+   is reachable from exactly one top-level HOG, or is a singleton).  wfbc is the hypothesis of the theorems
+   of C05-C10 and C16, which therefore hold for every consistent input. *)
+Theorem c02_consistent_forest : forall t d hs,
+  consistent t d hs ->
+  exists l, load t d = Ok l /\ wfbc t (forest_of l) = true /\
+    Forall2 (fun h top => matches h (snd top) /\ htax (snd top) = xtax h /\ wf_node t (snd top) = true) hs (l_tops l).
+Proof. exact consistent_forest. Qed.
+Print Assumptions c02_consistent_forest.
 
 (* the fully explicit encoding is one of the spellings, so this is an instance: *)
 Theorem c02_aligned_explicit : forall t d hs,
